@@ -9,9 +9,11 @@
     QuicConnection objects for reno/cubic x v1/v2/v1->v2; the application-level
     trace (writes, resets, StreamDataReceived with its bytes, StreamReset,
     ConnectionTerminated, end of the fair phase) is judged line by line by TLC
-    with TraceTransfer (which extends Transfer).
+    with TraceTransfer (which extends Transfer).  Connections through a Retry and resumed sessions with writes
+    before the handshake (0-RTT data, accepted or rejected by the server) are part of the scripts.
 """
 import json
+import os
 
 from .. import trace
 from ..netsim import project, runner, script, sim
@@ -22,14 +24,18 @@ _A = None
 
 
 def job_fn(job):
-    s = script.run(_A, job["cfg"], job["script"], seed=job["seed"], hs_adv=job["hs_adv"])
+    s = script.run(_A, job["cfg"], job["script"], seed=job["seed"], hs_adv=job["hs_adv"], early=job.get("early"))
     fates = sorted({e["fate"] for e in s.log if e["k"] == "net" and e["fate"] in ("drop", "dup", "rebind")})
+    if job["cfg"].get("retry") or job["cfg"].get("resume"):
+        # (the signature of such a run names the kind of handshake instead of the per-datagram fates)
+        fates = (["retry"] if job["cfg"].get("retry") else []) + (["resume-" + job["cfg"]["resume"]] if job["cfg"].get("resume") else [])
     stream_hit = any(e["k"] == "net" and e["fate"] in ("drop", "dup") and
                      any(f["t"] == "stream" for p in s.emitted.get(e["dg"], []) if p.get("ok") for f in p.get("frames", []))
                      for e in s.log)
     retrans = sum(1 for e in s.log if e["k"] == "pkt" and e.get("ok") and any(f["t"] == "stream" for f in e.get("frames", [])))
     return {"lines": project.transfer(s.log), "fates": fates, "nontrivial": bool(stream_hit), "nstream_pkts": retrans,
             "unopened": sum(1 for e in s.log if e["k"] == "pkt" and e["type"] in ("initial", "handshake", "1rtt", "0rtt") and not e["ok"]),
+            "zrtt": sum(1 for e in s.log if e["k"] == "pkt" and e["type"] == "0rtt"), "retries": s.retry["sent"],
             "raised": s.raised[:3]}
 
 
@@ -78,6 +84,34 @@ def tlc_scripts(check, n, depth):
                 steps.append(["deliver", len(b["net"])])
         out.append(steps)
     return out
+
+
+def zrtt_jobs(rnd, per):
+    """Connections that go through a Retry and/or resume a session with early data (accepted or rejected): random
+    profiles with writes before the first flight is delivered, and a small corpus."""
+    jobs = []
+    for mode in script.ZRTT_MODES:
+        for prof in ("lossy", "dup", "mixed"):
+            for i in range(per):
+                cc, ver = MATRIX[rnd.randrange(len(MATRIX))]
+                cfg = dict({"cc": cc, "version": ver}, **mode)
+                if rnd.random() < 0.3:
+                    cfg.update({"max_stream_data": rnd.choice([1500, 5000]), "max_data": rnd.choice([3000, 10000])})
+                jobs.append({"cfg": cfg, "script": script.random_script(rnd, rnd.choice([15, 40, 80]), script.PROFILES[prof]),
+                             "seed": rnd.randrange(1 << 30), "hs_adv": rnd.random() < 0.6, "early": script.random_early(rnd),
+                             "profile": "zrtt-" + prof})
+    early = [["write", "c", 0, 3000, False], ["write", "c", 2, 20, True]]
+    for mode in script.ZRTT_MODES:
+        # the early data, then more of the same streams after the handshake; once undisturbed, once with the first
+        # 0-RTT datagram lost and one duplicated, once with the 0-RTT datagrams overtaking the ClientHello
+        jobs.append({"cfg": dict(mode), "script": [["write", "c", 0, 10, True]], "seed": 31, "hs_adv": False, "early": early,
+                     "profile": "corpus-zrtt-plain"})
+        jobs.append({"cfg": dict(mode), "script": [["deliver", 0], ["drop", 0], ["dup", 0], ["deliver", 1], ["deliver", 0], ["deliver", 0],
+                                                   ["write", "c", 0, 10, True]], "seed": 32, "hs_adv": True, "early": early,
+                     "profile": "corpus-zrtt-loss-dup"})
+        jobs.append({"cfg": dict(mode), "script": [["deliver", 1], ["deliver", 1], ["deliver", 0], ["write", "s", 0, 50, True]],
+                     "seed": 33, "hs_adv": True, "early": early, "profile": "corpus-zrtt-overtakes-hello"})
+    return jobs
 
 
 def signature(clause, fates):
@@ -167,7 +201,11 @@ def run(check):
     jobs.append({"cfg": {}, "script": [["write", "c", 0, 10, False], ["deliver", 0], ["rebind"], ["write", "c", 0, 10, True],
                                         ["deliver", 0], ["dup", 0], ["deliver", 0], ["deliver", 0], ["deliver", 0]],
                  "seed": 2, "hs_adv": False, "profile": "corpus-dup-path-response"})
+    jobs += zrtt_jobs(rnd, 1 if check.quick else 20)
     results = runner.run_many(job_fn, jobs)
+    check.cov["zero_rtt_packets_on_the_wire"] = sum(r["zrtt"] for r in results)
+    check.cov["retry_packets_sent"] = sum(r["retries"] for r in results)
+    check.cov["retry_or_resumed_runs"] = sum(1 for j in jobs if j["cfg"].get("retry") or j["cfg"].get("resume"))
     judge(check, jobs, results, "TraceTransfer_V")
     for job, res in zip(jobs, results):
         check.count(repr(job), nontrivial=res["nontrivial"], evaluations=len(res["lines"]))
